@@ -387,7 +387,8 @@ def run(tier):
     authenticated_bytes(chk)
     mac_restart_sets_fill(chk)
     reset_history_free(chk)
-    from .c12 import x86ni_round_key_chains
+    from .c12 import x86ni_round_key_chains, bitsliced_ctr_lane_counters
+    bitsliced_ctr_lane_counters(chk)  # GCM over the bitsliced AES/CTR back ends
     x86ni_round_key_chains(chk)       # the AES-NI CTR / CTR+CBC-MAC back ends of GCM, CCM and EAX
     # CCM and EAX run on the CTR+CBC-MAC primitives: their counter carry chains decide the ciphertext (shared with C12)
     from .c12 import counter_carry_chains, empty_chunk_is_identity, x86ni_counter_lanes, ghash_pclmul_tail
